@@ -8,8 +8,9 @@ layer (`Thm/ProcSim.lean`); `Thm/ProcWf.lean` proves `progWfB prog = true → Pr
 evaluates `progWfB` on every program the harness explores (request `proc.wf`), so the evidence says on how many of them
 the theorem applies.
 
-What it checks, per scope (main module: `inProc = false`; procedure: `inProc = true`, slot table of the declaration):
-every variable is a slot of the scope used at the slot's type; an operator node carries the type the checker's table
+What it checks, per scope (main module: `inProc = false`; procedure: `inProc = true`, slot table of the declaration;
+`st` = the procedure is STATIC): every variable is a slot of the scope — or, when marked shared, of the table of DIM
+SHARED variables — used at the slot's type; a DIM inside a STATIC procedure is the guarded form `sdim` and occurs nowhere else; an operator node carries the type the checker's table
 (`Gen.NumTables.binType`, extracted from `cast_binary_op`) gives for its operand types (`/` excepted: it is followed by
 a `Cast`); a call names an existing FUNCTION / SUB with exactly the annotated parameters, a by-reference actual has the
 parameter's type; conditions of IF / WHILE / DO are not strings; `CASE IS` uses a relational operator, a CASE has at
@@ -22,20 +23,20 @@ open RbModel RbModel.Num
 open RbModel.Ast (Pos)
 
 mutual
-def eWfB (sg : Sigs) (sl : List Ty) : Proc.Expr → Bool
+def eWfB (sg : Sigs) (sl : SlotTabs) : Proc.Expr → Bool
   | .lit _ _ => true
-  | .var x t _ => decide (sl[x]? = some t)
+  | .var x t _ => decide (sl.get? x = some t)
   | .un _ e _ => eWfB sg sl e
   | .bin op l r t _ =>
     eWfB sg sl l && eWfB sg sl r && (decide (op = .divide) || decide (Gen.NumTables.binType op l.ty r.ty = some t))
   | .paren e _ => eWfB sg sl e
   | .callFn f args t _ => decide (sg[f]? = some (some t, args.params)) && aWfB sg sl args
-def aWfB (sg : Sigs) (sl : List Ty) : Args → Bool
+def aWfB (sg : Sigs) (sl : SlotTabs) : Args → Bool
   | .nil => true
   | .cons e _ pt rest => eWfB sg sl e && (!e.isRef || decide (e.ty = pt)) && aWfB sg sl rest
 end
 
-def itemsWfB (sg : Sigs) (sl : List Ty) : List PrintItem → Bool
+def itemsWfB (sg : Sigs) (sl : SlotTabs) : List PrintItem → Bool
   | [] => true
   | .expr e :: rest => eWfB sg sl e && itemsWfB sg sl rest
   | _ :: rest => itemsWfB sg sl rest
@@ -44,12 +45,12 @@ def selRelOpB (op : Op) : Bool :=
   decide (op = .less) || decide (op = .lessOrEqual) || decide (op = .equal) || decide (op = .greaterOrEqual) ||
     decide (op = .greater) || decide (op = .notEqual)
 
-def caseWfB (sg : Sigs) (sl : List Ty) : CaseExpr → Bool
+def caseWfB (sg : Sigs) (sl : SlotTabs) : CaseExpr → Bool
   | .simple e => eWfB sg sl e
   | .is op e => selRelOpB op && eWfB sg sl e
   | .range lo hi => eWfB sg sl lo && eWfB sg sl hi
 
-def condsWfB (sg : Sigs) (sl : List Ty) : List CaseExpr → Bool
+def condsWfB (sg : Sigs) (sl : SlotTabs) : List CaseExpr → Bool
   | [] => true
   | c :: rest => caseWfB sg sl c && condsWfB sg sl rest
 
@@ -57,49 +58,50 @@ def isSkipB : SStmt → Bool
   | .skip => true
   | _ => false
 
-def readWfB (sl : List Ty) : List (Nat × Ty × Pos) → Bool
+def readWfB (sl : SlotTabs) : List (Var × Ty × Pos) → Bool
   | [] => true
-  | v :: rest => decide (sl[v.1]? = some v.2.1) && readWfB sl rest
+  | v :: rest => decide (sl.get? v.1 = some v.2.1) && readWfB sl rest
 
 mutual
-def wfB (sg : Sigs) (sl : List Ty) (inProc : Bool) : SStmt → Bool
+def wfB (sg : Sigs) (sl : SlotTabs) (inProc st : Bool) : SStmt → Bool
   | .skip => true
   | .comment => true
-  | .seq a b => wfB sg sl inProc a && wfB sg sl inProc b
-  | .dim x t _ => decide (sl[x]? = some t)
-  | .assign x t e _ => decide (sl[x]? = some t) && eWfB sg sl e
+  | .seq a b => wfB sg sl inProc st a && wfB sg sl inProc st b
+  | .dim x t _ => decide (sl.get? x = some t) && !st
+  | .sdim x t _ => decide (sl.loc[x]? = some t) && st
+  | .assign x t e _ => decide (sl.get? x = some t) && eWfB sg sl e
   | .print items _ => itemsWfB sg sl items
   | .ifBlock c thn elifs hasElse els _ =>
-    eWfB sg sl c && decide (c.ty ≠ .str) && wfB sg sl inProc thn && wfElifsB sg sl inProc elifs && wfB sg sl inProc els &&
+    eWfB sg sl c && decide (c.ty ≠ .str) && wfB sg sl inProc st thn && wfElifsB sg sl inProc st elifs && wfB sg sl inProc st els &&
       (hasElse || isSkipB els)
-  | .while c body _ => eWfB sg sl c && decide (c.ty ≠ .str) && wfB sg sl inProc body
-  | .doLoop c _ _ body _ => eWfB sg sl c && decide (c.ty ≠ .str) && wfB sg sl inProc body
+  | .while c body _ => eWfB sg sl c && decide (c.ty ≠ .str) && wfB sg sl inProc st body
+  | .doLoop c _ _ body _ => eWfB sg sl c && decide (c.ty ≠ .str) && wfB sg sl inProc st body
   | .end_ _ => true
   | .data _ _ => false
   | .read vars _ => readWfB sl vars
   | .select e cases hasElse els _ =>
-    eWfB sg sl e && wfCasesB sg sl inProc cases && wfB sg sl inProc els && (hasElse || isSkipB els)
+    eWfB sg sl e && wfCasesB sg sl inProc st cases && wfB sg sl inProc st els && (hasElse || isSkipB els)
   | .forLoop x t lo hi step body _ =>
-    decide (sl[x]? = some t) && eWfB sg sl lo && eWfB sg sl hi &&
-      (match step with | some se => eWfB sg sl se | none => true) && wfB sg sl inProc body
+    decide (sl.get? x = some t) && eWfB sg sl lo && eWfB sg sl hi &&
+      (match step with | some se => eWfB sg sl se | none => true) && wfB sg sl inProc st body
   | .callSub f args _ => decide (sg[f]? = some (none, args.params)) && aWfB sg sl args
   | .exitProc _ => inProc
-def wfElifsB (sg : Sigs) (sl : List Ty) (inProc : Bool) : ElseIfs → Bool
+def wfElifsB (sg : Sigs) (sl : SlotTabs) (inProc st : Bool) : ElseIfs → Bool
   | .nil => true
-  | .cons c body rest => eWfB sg sl c && decide (c.ty ≠ .str) && wfB sg sl inProc body && wfElifsB sg sl inProc rest
-def wfCasesB (sg : Sigs) (sl : List Ty) (inProc : Bool) : SCases → Bool
+  | .cons c body rest => eWfB sg sl c && decide (c.ty ≠ .str) && wfB sg sl inProc st body && wfElifsB sg sl inProc st rest
+def wfCasesB (sg : Sigs) (sl : SlotTabs) (inProc st : Bool) : SCases → Bool
   | .nil => true
-  | .cons conds body rest => !conds.isEmpty && condsWfB sg sl conds && wfB sg sl inProc body && wfCasesB sg sl inProc rest
+  | .cons conds body rest => !conds.isEmpty && condsWfB sg sl conds && wfB sg sl inProc st body && wfCasesB sg sl inProc st rest
 end
 
-def wfTopB (sg : Sigs) (sl : List Ty) (inProc : Bool) : SStmt → Bool
-  | .seq a b => wfTopB sg sl inProc a && wfTopB sg sl inProc b
+def wfTopB (sg : Sigs) (sl : SlotTabs) (inProc st : Bool) : SStmt → Bool
+  | .seq a b => wfTopB sg sl inProc st a && wfTopB sg sl inProc st b
   | .data _ _ => true
-  | st => wfB sg sl inProc st
+  | s => wfB sg sl inProc st s
 
 def progWfB (prog : SProgram) : Bool :=
-  wfTopB (sigsOf prog.procs) prog.slots false prog.body &&
-    prog.procs.all fun d => d.wfSlots && wfB (sigsOf prog.procs) d.slots true d.body
+  wfTopB (sigsOf prog.procs) ⟨prog.slots, prog.gslots⟩ false false prog.body &&
+    prog.procs.all fun d => d.wfSlots && wfB (sigsOf prog.procs) ⟨d.slots, prog.gslots⟩ true d.static d.body
 
 
 end RbModel.Proc
